@@ -40,7 +40,7 @@ def run(ctx):
     ctx.overlay(only)
     scope_buf = dict(producers=["p", "q"], per=2, closers=["c", "d"])
     scope_ser = dict(producers=["p", "q"], per=2, closers=["c"])
-    limit = ctx.pick(700, 4000)
+    limit = ctx.pick(500, None)
     # (a) design level: exhaustive model check (safety + termination) and two negative controls;
     # state graphs of the two replay scopes; driver builds (all independent: run concurrently)
     _, _, _, gbuf, gser, bbuf, bser = sp.parallel([
@@ -57,7 +57,7 @@ def run(ctx):
 
     # (b)+(c) every transition of the bounded model forced onto real goroutines;
     # (d) free-running stress with jitter
-    rounds = ctx.pick(150, 1500)
+    rounds = ctx.pick(150, 2500)
     parts = sp.parallel([
         lambda: sp.replay(ctx, bbuf, "TestVerifC31BufReplay", gbuf),
         lambda: sp.replay(ctx, bser, "TestVerifC31SerReplay", gser),
